@@ -263,7 +263,7 @@ def run(ctx: Ctx):
     for total, sp in spelling_groups(ctx)[:30]:
         for a in sp:
             try:
-                tk = TimeKeeper(start=iso(EPOCH0), stop=iso(EPOCH0 + 5 * total + 1), dt=a)
+                tk = TimeKeeper(start=iso(EPOCH0), stop=iso(EPOCH0 + 5 * total + (1 if total > 1 else 0)), dt=a)
                 got = (int(tk.dt / np.timedelta64(1, "s")), int(tk.Nsteps))
             except BaseException as e:  # noqa: BLE001
                 got = type(e).__name__
